@@ -22,6 +22,10 @@ CLAIMS = {
          "TLC generates strings with VALID checksums over all 256 version bytes x payload lengths 0..65 from the specification's encoder (Gen_AddressCodec); these and structured pad-bit / prefix / case / Base58Check / hex-pubkey families are decoded by the real code and TLC decides each accept/reject and canonical re-encoding against the strict decoder of AddressCodec",
          "model checking (the strict reader accepts exactly the three standard version/length pairs and no non-zero padding) plus TLC trace validation of tens of thousands of DecodeAddress calls on adversarially constructed valid-checksum strings",
          "as C01; mixed-case renderings may be accepted or rejected (case folding is a documented normalisation)"),
+ "C03": ("DESIGN.md §4 C03",
+         "TLA+ module ChecksumCodes: TLC enumerates every syndrome of weight <=3 / <=2 as a state (VIEW = syndrome) and 'distinct = generated' proves minimum distance 6 (CashAddr, 112-symbol window) and 5 (bech32, 89 symbols), on the generator coefficients and again on the syndrome table computed from the implementation's own polyMod/polymod (verif hooks); affinity/superposition events and corrupted-string acceptance events are judged by TLC trace validation",
+         "exhaustive model checking of the code's minimum distance on the implementation's own syndrome table (11.7M + 3.7M states) plus trace validation of substitution patterns of weight 1..5 / 1..4 against the strict decoders",
+         "linearity of the implementation's remainder map is sampled (affinity and sparse superposition events), not proved; SHA/curve primitives as in C01"),
 }
 
 NOT_YET = "check not built yet in this round; see DESIGN.md for the planned TLA+ model"
